@@ -22,8 +22,8 @@ F_BRACKET = "C02-continuation-bracket-line"
 
 
 # ------------------------------------------------------------------------------ cases
-def mk_case(sh, ast, mode, lines, rules, subs, grouping, user, reqs, eff, etype=None, stratum="random"):
-    return dict(shape=sh.name, ast=expr_to_json(ast), layout=mode, lines=list(lines), rules=[list(r) for r in rules],
+def mk_case(sh, ast, mode, lines, rules, subs, grouping, user, reqs, eff, etype=None, stratum="random", gaps=None):
+    return dict(gaps=gaps, shape=sh.name, ast=expr_to_json(ast), layout=mode, lines=list(lines), rules=[list(r) for r in rules],
                 subs=[{f: expr_to_json(x) for f, x in sb.items()} for sb in subs], grouping=grouping,
                 user_fns=list(user), requests=[[value_desc(v) for v in r] for r in reqs], effect=eff,
                 etype=etype, stratum=stratum)
@@ -104,8 +104,8 @@ def random_cases(rng, n_asts, maxdepth):
         eff = rng.choice(sh.effects)
         toks = tokens_of(ast)
         for mode in LAYOUTS:
-            lines, _ = matcher_lines("m" + sh.sfx, toks, mode, rng)
-            out.append(mk_case(sh, ast, mode, lines, rules, subs, grouping, user, reqs, eff))
+            lines, info = matcher_lines("m" + sh.sfx, toks, mode, rng)
+            out.append(mk_case(sh, ast, mode, lines, rules, subs, grouping, user, reqs, eff, gaps=info.get("gaps")))
     return out
 
 
@@ -376,6 +376,21 @@ def run(chk, n_asts, maxdepth, vm_n, nonconst_n):
         if r4 != [[wire_tok(t) for t in toks]]:
             chk.disagree(dict(matcher=v), [wire_tok(t) for t in toks], r4, where="cb_lex (render ts ws) differs from ts")
     chk.extra["token_level_cases"] = n_tok
+    # the hypotheses of C02_pipeline_tokens(_ast) hold on the generated cases (wf_tokens, admissible), and
+    # Gallina's render agrees with the harness renderer
+    hyp = [c for c in tok_cases if c.get("gaps")]
+    q6 = []
+    for c in hyp:
+        g = c["gaps"]
+        ws = [[g[0] if i == 0 else "", g[i + 1]] for i in range(len(g) - 1)]
+        q6.append((6, [SHAPE_BY_NAME[c["shape"]].sfx, SHAPE_BY_NAME[c["shape"]].sfx, c["ast"], ws]))
+    for c, r in zip(hyp, chk.oracle.query(q6)):
+        g = c["gaps"]
+        want = g[0] + c["lines"][0].split("=", 1)[1].strip() + g[-1]
+        if r[:2] != [1, 1] or core.wstr(r[2]).strip() != want.strip():
+            chk.disagree(dict(lines=c["lines"], ast=c["ast"]), "generated case", r[:2],
+                         where="generated case outside the hypotheses of pipeline_tokens (wf_tokens / admissible) or render twin differs")
+    chk.extra["theorem_hypotheses_checked_on_cases"] = chk.extra.get("theorem_hypotheses_checked_on_cases", 0) + len(hyp)
 
     # --- how many generated sub-conditions are non-constant over the universe (rules x requests)
     sub_total = sub_nonconst = 0
@@ -486,9 +501,9 @@ def main():
     if chk.replay_file:
         return replay(chk)
     if chk.tier == "thorough":
-        run(chk, 4000, 6, 600, 600)
+        run(chk, 4000, 5, 600, 600)
     else:
-        run(chk, 190, 4, 60, 120)
+        run(chk, 190, 3, 60, 120)
         if chk.broken() and not chk.spec_failures:
             chk.notes.append("escalated to a bigger budget after a broken proof/correspondence")
             run(chk, 1200, 5, 60, 0)
